@@ -9,7 +9,7 @@ PROPS = {
                       "Kani proves the same over all input offsets as a loop-free harness",
         "level_note": "trusted: Verus+z3, extraction rules, ArrayVec::clear model; clone independence rests on "
                       "derive(Clone) over owned data (Rust's type system), not proved",
-        "units": {"quick": [v("hasher"), v("spec_lemmas"), k("reset_restores_initial_state")], "thorough": []},
+        "units": {"quick": [v("hasher"), v("spec_lemmas"), k("reset_restores_initial_state")], "thorough": [s("C10")]},
         "cone": [r"crate::Hasher::reset", r"crate::Hasher::clone", r"crate::ChunkState::clone", r"crate::Hasher::new", r"crate::Hasher::count", r"crate::ChunkState::new",
                  r"crate::traits::Hasher::Reset", r"crate::traits::Hasher::.*reset", r"\(contract\)"],
         "explanation": "Hasher::reset's postcondition is stated over the whole state, not just the touched fields: "
